@@ -38,10 +38,13 @@ SOURCES = {
               'class Err(ValueError):\n    """An exception."""\n', False),
     "pkg.b": ('"""Module b, see L{f}, L{X}, L{pkg.a.F} and L{nope.missing}."""\nfrom pkg.a import C, D as Dee\nfrom solo import helper\n__all__ = ["f", "X", "C", "helper"]\ndef f(x: C, y: "Dee" = None) -> C:\n    """Function f, see L{C} and L{Dee.m}.\n\n    @param x: The x.\n    @param z: No such parameter.\n    @type x: L{C}\n    """\n'
               'X: C = None\n"""Variable X."""\nS = {"b", "a", "c"}\n"""A set constant."""\nFS = frozenset(["q", "p"])\n', False),
+    "pkg.z": ('"""Module z: zope interfaces."""\nfrom zope.interface import Interface, implementer\nclass IRead(Interface):\n    """Read side."""\n    def close():\n        """Stop reading."""\n'
+              'class IWrite(Interface):\n    """Write side."""\n    def close():\n        """Stop writing."""\nclass IMon(Interface):\n    """Monitored."""\n    def close():\n        """Emit statistics."""\n'
+              '@implementer(IRead, IWrite, IMon)\nclass BaseT:\n    """Base transport."""\n    def close(self):\n        pass\nclass Tcp(BaseT):\n    """Tcp transport: inherits its interfaces."""\n    def close(self):\n        pass\n', False),
     "solo": ('"""Root module solo.\n\n@see: L{pkg}\n@author: A\n@author: B\n"""\ndef helper():\n    """Helper; B{bold} I{it}.\n\n    Heading\n    =======\n\n    Text.\n    """\nclass K:\n    """K."""\n    def helper(self): pass\n', False),
     "tool": ('"""Root module tool."""\nfrom pkg.a import *\nfrom pkg.b import *\nclass T(C):\n    """T, subclass across roots."""\n', False),
 }
-NROOTS = [["pkg", "pkg.a", "pkg.b", "solo", "tool"], ["pkg", "pkg.a", "pkg.b", "solo"], ["pkg", "pkg.a", "pkg.b"]]
+NROOTS = [["pkg", "pkg.a", "pkg.b", "pkg.z", "solo", "tool"], ["pkg", "pkg.a", "pkg.b", "pkg.z", "solo"], ["pkg", "pkg.a", "pkg.b", "pkg.z"]]
 THEMES = ["classic", "readthedocs"]
 MAXORDER = tier(6, 24)
 
@@ -141,7 +144,7 @@ UNBLOCK = ["open", "os.mkdir", "os.symlink", "os.remove", "os.rmdir", "shutil.rm
     parts=lambda: [[r, t] for r in range(3) for t in range(2)], timeout=(300, 900), cls="F", tracing="concrete-after-choice", twin="first", unblock=UNBLOCK,
     code=["every module of pydoctor (loaded from source with set constructions rewritten)", "pydoctor.templatewriter.summary.IndexPage.rootkind", "pydoctor.templatewriter.search", "pydoctor.model.System (parse_errors, once_msgs)",
           "pydoctor.astutils (names)", "pydoctor.epydoc.markup.epytext (_SYMBOLS, _section_slugs)", "pydoctor.epydoc.markup.restructuredtext (_newfields)", "pydoctor.templatewriter.writer.TemplateWriter", "pydoctor.sphinx.SphinxInventoryWriter"],
-    bounds={"quick": "a project of 3 / 2 / 1 roots of mixed kinds (package + modules; epytext and reST docstrings with sections, custom fields, cross-root subclasses, star imports, unresolvable links), 2 themes, project name given or not, "
+    bounds={"quick": "a project of 3 / 2 / 1 roots of mixed kinds (package + modules; epytext and reST docstrings with sections, custom fields, cross-root subclasses, star imports, unresolvable links, zope interfaces with same-named members inherited through a base class), 2 themes, project name given or not, "
                      "6 set-order indices (every permutation of every set of <= 3 members; 4 rearrangements of larger sets): full output trees compared byte for byte",
             "thorough": "24 set-order indices (every permutation of every set of <= 4 members)"},
     stubs=["set constructions in pydoctor's source (set(), frozenset(), {..}, set comprehensions, defaultdict(set)) build lib.setorder.PermSet / PermFrozenSet: real sets whose __iter__ and pop follow the chosen permutation"],
